@@ -356,12 +356,7 @@ def step (st : St) (line : String) : St × String :=
   | ["chainlen", o, bound] =>
     -- "does this owner store at most `bound` links?": the number itself is read on the Go side from debug
     -- output whose format is nobody's contract, so only the bound is compared
-    let n := match parseOwner st.handles o with
-      | .table t => (st.w.table t).props.length
-      | .column t n => ((st.w.column? t n).map (fun (c : Column) => c.props.length)).getD 0
-      | .row r => (st.w.row r).props.length
-      | .cell r c => ((st.w.cell? r c).map (fun (c : Cell) => c.props.length)).getD 0
-      | .copy n => ((st.w.copies[n]?).map (fun (c : Cell) => c.props.length)).getD 0
+    let n := st.w.chainLen (parseOwner st.handles o)
     (st, if n ≤ natOf bound then "le" else "gt")
   | ["regcb", _t, o, tm, tg, cb] =>
     match parseTime tm with
@@ -383,8 +378,7 @@ def step (st : St) (line : String) : St × String :=
       let extra := if wr.kind = .html then
           " rc=" ++ (match wr.html.rowClass with
             | none => "[]"
-            | some _ => joinC (("0" :: ((w.view wr.core).rows.zipIdx.filterMap (fun (r, i) =>
-                match r with | some _ => some (toString (i + 1)) | none => none)))))
+            | some _ => joinC ((rowClassCalls (w.view wr.core)).map toString))
         else ""
       ({ st with w := w }, s!"res={showStop stop} out={hexOf m.output}{extra}")
   | ["renderstr", wv] =>
